@@ -2,9 +2,11 @@
 import hashlib, json, os, subprocess, sys, time
 
 VERIF = '/verif'
-REPO = '/repo'
-CRATE = '/repo/falcon-rust'
-BUILD = '/verif/.build'
+# VERIF_REPO / VERIF_BUILD exist only so that seeded-breakage trials can run against a scratch worktree in parallel
+# with development; every registered check runs with the defaults (/repo, /verif/.build).
+REPO = os.environ.get('VERIF_REPO', '/repo')
+CRATE = os.path.join(REPO, 'falcon-rust')
+BUILD = os.environ.get('VERIF_BUILD', '/verif/.build')
 EVID = '/verif/evidence'
 CEX = '/verif/counterexamples'
 GUARD = 'aszepieniec_falcon_rust_verif'
